@@ -1390,6 +1390,13 @@ class TaskScenario(ScenarioData):
                 # Can't book - one or more resources unavailable
                 return
 
+            # The team works the same instants: everybody starts where the busiest member is free
+            used = [r.data[self.scenarioIdx].slotSecondsUsed.get(slot_idx, 0.0) for r in resources_to_book]
+            for resource in resources_to_book:
+                res_scenario = resource.data[self.scenarioIdx]
+                if res_scenario.slotSecondsUsed.get(slot_idx, 0.0) < max(used):
+                    res_scenario.slotSecondsUsed[slot_idx] = max(used)
+
         # Now book all resources (or single resource for non-team tasks)
         booked_any = False
         total_effort_this_slot = 0.0
